@@ -128,3 +128,13 @@ func fuzzProp(f *testing.F, id string) {
 		}
 	}))
 }
+
+// TestC02Sweep enumerates every Unicode scalar value (exhaustive sub-domain of C02).
+func TestC02Sweep(t *testing.T) {
+	p := registry["C02"]
+	for b := 0; b < sweepBlocks; b++ {
+		if err := RunCase(p, &C02Case{Sweep: b}); err != nil {
+			t.Fatalf("C02 sweep block %d: %v", b, err)
+		}
+	}
+}
